@@ -1,5 +1,5 @@
 /-
-C04, finding F29 — a possible repair of the reader of the reference server's feedback lines
+C04, finding F32 — a possible repair of the reader of the reference server's feedback lines
 (`runTestCasesForServer`, stderr goroutine).  The reader as it is (`ServerRunner.lineAct`) splits the
 trimmed line at the FIRST `": "` and looks the front part up among the batch's test names; a test
 name that itself contains `": "` is cut in two and the line is forwarded as noise (or attributed to
